@@ -50,7 +50,7 @@ MUTS = {
              "replace_taxon", "recopy", "recopy", "copy_of_copy"],
     "treelist": ["annot_value_edit", "edge_length", "node_label", "list_label", "append", "remove", "annot_add", "reroot", "prune", "relabel_taxon", "ns_add",
                  "tree_annot_add", "comment", "replace_taxon", "recopy", "copy_of_copy"],
-    "matrix": ["annot_value_edit", "column_label", "cell_annot", "set_cell", "append_cell", "del_sequence", "new_sequence", "mat_label", "annot_add", "relabel_taxon", "ns_add", "seq_annot", "copy_of_copy"],
+    "matrix": ["annot_value_edit", "column_label", "cell_annot", "set_cell", "append_cell", "del_sequence", "new_sequence", "mat_label", "annot_add", "relabel_taxon", "ns_add", "seq_annot", "subset_edit", "subset_edit", "copy_of_copy"],
     "namespace": ["annot_value_edit", "add_taxon", "remove_taxon", "relabel_taxon", "sort", "ns_label", "annot_add", "taxon_annot"],
 }
 SHARED_TOUCHING = set(["relabel_taxon", "ns_add", "taxon_annot", "add_taxon", "remove_taxon", "sort", "ns_label", "replace_taxon"])
@@ -153,6 +153,8 @@ class C12(Machine):
             cls = dendropy.DnaCharacterMatrix if cfg["dt"] == "dna" else dendropy.StandardCharacterMatrix
             m = cls.from_dict(init["rows"], taxon_namespace=ns)
             m.label = "mat"
+            m.new_character_subset("first", [0])
+            m.new_character_subset("codon3", set([2, 5]))
             if cfg["extra_attr"] or cfg["annotated"]:
                 # column definitions shared by the cells of a column, and a cell-level annotation
                 from dendropy.datamodel.charmatrixmodel import CharacterType
@@ -609,6 +611,16 @@ class C12(Machine):
                 mtx.annotations.add_new("added", st["s"])
             elif m == "seq_annot":
                 mtx[taxa[k % len(taxa)]].annotations.add_new("q", st["v"])
+            elif m == "subset_edit":
+                # the column set of a character subset, edited in place
+                subs = list(mtx.character_subsets.values())
+                if not subs:
+                    return False
+                ci = subs[k % len(subs)].character_indices
+                if (k2 % 7) in ci:
+                    ci.discard(k2 % 7)
+                else:
+                    ci.add(k2 % 7)
             elif m == "relabel_taxon":
                 if len(ns) == 0:
                     return False
